@@ -41,7 +41,12 @@ def run(prop, root):
         mm = importlib.import_module("sa.mutants." + prop.lower())
     except ModuleNotFoundError:
         return {"ok": True, "summary": "selftest: no mutant catalogue for %s" % prop, "mutants": 0, "twins": 0}
-    rules = importlib.import_module("sa.rules." + prop.lower())
+    from .related import run_rules
+
+    class rules:   # the property's own rules plus the shared families
+        @staticmethod
+        def run(c):
+            run_rules(prop, c)
     base_project = Project(root)
     base = Ctx(prop, base_project, quiet=True)
     rules.run(base)
